@@ -70,7 +70,9 @@ def _weighted_pdag(P, salt):
     for i in range(p):
         for j in range(p):
             if d[i] >> j & 1:
-                A[i, j] = vals[k % 8]
+                # even salts: the sign of a directed edge is the parity of its tail, so that sums of products over
+                # two-step paths i -> k -> j through an even and an odd k cancel exactly
+                A[i, j] = (1.0 if i % 2 == 0 else -1.0) if salt % 2 == 0 else vals[k % 8]
                 k += 1
             elif u[i] >> j & 1 and i < j:
                 s = 1.0 if (k % 3) else -1.0
